@@ -17,7 +17,7 @@ var suitesByProp = map[string][]func(*runner, *rng){
 	"C14": {suiteForce},
 	"C10": {suiteFragment},
 	"C11": {suiteUnfragment},
-	"C13": {suiteOptimize, suiteTtmlOptimize, suiteStylingParsed},
+	"C13": {suiteOptimize, suiteOptimizeAlias, suiteTtmlOptimize, suiteStylingParsed},
 	"C16": {suiteDur, suiteFracFloat},
 	"C15": {suiteLin},
 	"C01": {suiteSrt},
